@@ -342,6 +342,10 @@ fn run(ctx: &RunCtx) -> Report {
     let values: Vec<Vec<u8>> = (0..2).map(|i| format!("value-{i}").into_bytes()).collect();
     let hashes: Vec<Id> = (0..2).map(|_| rng.id()).collect();
     let stored_item = Item::signed(&keys[0], None, 3, b"stored");
+    let garbage_contacts = rng.chance(1, 4);
+    if garbage_contacts {
+        report.probe("garbage_contact_runs", 1);
+    }
     for i in 0..n_raw {
         let addr = SocketAddrV4::new(priv_ip(70 + i), 6881);
         let mut p = Peer::new(rng.id(), addr);
@@ -357,6 +361,13 @@ fn run(ctx: &RunCtx) -> Report {
             1 => PutReply::Error(*rng.pick(&[203i64, 301, 302, 205])),
             _ => PutReply::Ack,
         };
+        if garbage_contacts {
+            // contacts the OS refuses to send to (port 0, broadcast): `send_to` fails for them
+            for _ in 0..rng.usize(1, 3) {
+                let a = if rng.chance(1, 2) { SocketAddrV4::new(priv_ip(8000 + rng.usize(0, 100)), 0) } else { SocketAddrV4::new(std::net::Ipv4Addr::BROADCAST, rng.range(1024, 60000) as u16) };
+                p.extra_nodes.push((rng.id(), a));
+            }
+        }
         rawnet.add(&sim, p);
         addrs.push(addr);
     }
